@@ -7,6 +7,7 @@ package pfcp
 import (
 	"fmt"
 	"net"
+	"reflect"
 	"sort"
 	"strings"
 	"time"
@@ -16,11 +17,11 @@ import (
 	"github.com/free5gc/go-upf/pkg/factory"
 )
 
-func VerifSrLen(s *PfcpServer) int   { return len(s.srCh) }
-func VerifToLen(s *PfcpServer) int   { return len(s.trToCh) }
-func VerifRcvLen(s *PfcpServer) int  { return len(s.rcvCh) }
+func VerifSrLen(s *PfcpServer) int          { return len(s.srCh) }
+func VerifToLen(s *PfcpServer) int          { return len(s.trToCh) }
+func VerifRcvLen(s *PfcpServer) int         { return len(s.rcvCh) }
 func VerifSetTxSeq(s *PfcpServer, v uint32) { s.txSeq = v }
-func VerifTxSeq(s *PfcpServer) uint32 { return s.txSeq }
+func VerifTxSeq(s *PfcpServer) uint32       { return s.txSeq }
 
 // VerifDump: canonical dump of the control-plane tables (call only while the loop is idle).
 //
@@ -105,7 +106,7 @@ func VerifDump(s *PfcpServer) string {
 		}
 		sort.Ints(ks)
 		for _, k := range ks {
-			qs = append(qs, fmt.Sprintf("%d/%d", k, len(x.q[uint16(k)])))
+			qs = append(qs, fmt.Sprintf("%d/%d", k, verifLen(x.q[uint16(k)])))
 		}
 		nid := "?"
 		if x.rnode != nil {
@@ -218,4 +219,33 @@ func (t *VerifTable) Dump() string {
 		free = []string{"_"}
 	}
 	return fmt.Sprintf("slots=%d free=%s", len(t.n.sess), strings.Join(free, ","))
+}
+
+// VerifFireTxTimer puts the transmit transaction `id` into the state "its retransmission timer has fired, the
+// timeout event has not been delivered yet": the timer is replaced by one that has already run (and posts nothing —
+// the harness delivers the timeout event itself).  To be called between events only (the loop is idle).
+func VerifFireTxTimer(s *PfcpServer, id string) bool {
+	tx, ok := s.txTrans[id]
+	if !ok || tx.timer == nil {
+		return false
+	}
+	tx.timer.Stop()
+	ran := make(chan struct{})
+	t := time.AfterFunc(time.Nanosecond, func() { close(ran) })
+	<-ran
+	tx.timer = t
+	return true
+}
+
+// verifLen: number of packets held by a PDR's queue, whatever represents it (a channel today; anything with Len())
+func verifLen(q interface{}) int {
+	v := reflect.ValueOf(q)
+	switch v.Kind() {
+	case reflect.Chan, reflect.Slice, reflect.Map:
+		return v.Len()
+	}
+	if m := v.MethodByName("Len"); m.IsValid() && m.Type().NumIn() == 0 && m.Type().NumOut() == 1 {
+		return int(m.Call(nil)[0].Int())
+	}
+	return -1
 }
